@@ -1391,29 +1391,29 @@ def freeze_recipes(draw, tier):
 # ================================================================== registration
 _NT = "non-trivial = batched or pytree (Vector) data"
 SUBS = [
-    Sub(name="gaussian", check=check_gaussian, strategy=gaussian_recipes, quick=48, thorough=2000, shards=1, jax=True,
+    Sub(name="gaussian", check=check_gaussian, strategy=gaussian_recipes, quick=48, thorough=2000, shards=1, jax=True, budget_quick=100.0,
         rule=_NT + ", or dense Hermitian noise callables; noise given as None / array / diagonal callable / dense "
         "callable for cov_inv and std_inv, real and complex data"),
-    Sub(name="studentt", check=check_studentt, strategy=studentt_recipes, quick=36, thorough=1500, shards=1, jax=True,
+    Sub(name="studentt", check=check_studentt, strategy=studentt_recipes, quick=36, thorough=1500, shards=1, jax=True, budget_quick=100.0,
         rule=_NT + ", or per-datum dof, or dense noise callables"),
     Sub(name="poissonian", check=check_poissonian, strategy=poissonian_recipes, quick=30, thorough=1500, shards=1,
-        jax=True, rule=_NT),
+        jax=True, budget_quick=100.0, rule=_NT),
     Sub(name="categorical", check=check_categorical, strategy=categorical_recipes, quick=40, thorough=2000, shards=1,
-        jax=True, rule="non-trivial = more than one row of logits (batch) or Vector of logit arrays; axis -1 and 0"),
+        jax=True, budget_quick=100.0, rule="non-trivial = more than one row of logits (batch) or Vector of logit arrays; axis -1 and 0"),
     Sub(name="vcgaussian", check=check_vcgaussian, strategy=vcgaussian_recipes, quick=30, thorough=1500, shards=2,
-        jax=True, rule=_NT + "; real and complex data, primals as tuple and as Vector"),
+        jax=True, budget_quick=100.0, rule=_NT + "; real and complex data, primals as tuple and as Vector"),
     Sub(name="vcstudentt", check=check_vcstudentt, strategy=vcstudentt_recipes, quick=24, thorough=1000, shards=1,
-        jax=True, rule=_NT + ", or per-datum dof"),
+        jax=True, budget_quick=100.0, rule=_NT + ", or per-datum dof"),
     Sub(name="ndvcgaussian", check=check_ndvcgaussian, strategy=ndvcgaussian_recipes, quick=30, thorough=1500,
-        shards=3, jax=True,
+        shards=3, jax=True, budget_quick=100.0,
         rule="non-trivial = batch of Gaussians or Vector of two leaves; d in 1..3, covariance and precision"),
-    Sub(name="amend", check=check_amend, strategy=amend_recipes, quick=45, thorough=2000, shards=2, jax=True,
+    Sub(name="amend", check=check_amend, strategy=amend_recipes, quick=45, thorough=2000, shards=2, jax=True, budget_quick=100.0,
         rule="all non-trivial (composed): one or two chained forward models, holomorphic complex model, "
         "Cholesky-type covariance model"),
-    Sub(name="sum", check=check_sum, strategy=sum_recipes, quick=30, thorough=1500, shards=2, jax=True,
+    Sub(name="sum", check=check_sum, strategy=sum_recipes, quick=30, thorough=1500, shards=2, jax=True, budget_quick=100.0,
         rule="all non-trivial (composed): 2-3 summands with own forward models on a shared latent space, or "
         "un-amended likelihoods on one Vector parameter"),
-    Sub(name="freeze", check=check_freeze, strategy=freeze_recipes, quick=36, thorough=1500, shards=2, jax=True,
+    Sub(name="freeze", check=check_freeze, strategy=freeze_recipes, quick=36, thorough=1500, shards=2, jax=True, budget_quick=100.0,
         rule="all non-trivial (composed): non-empty proper subset of latent keys frozen (key shortcut and boolean "
         "tree), or mean / std_inv of VariableCovarianceGaussian frozen"),
 ]
